@@ -60,7 +60,7 @@ class C05(core.Check):
         'org:zone-offset-0', 'org:zone-offset-last', 'org:zone-offset-past', 'org:bare-after-zone', 'org:GLOBAL-relative',
         'same-zone>=3-stretches', 'create:valid', 'create:outside-global', 'create:duplicate', 'create:inverted',
         'create:beyond-width', 'layout:global-redefined', 'layout:overlapping', 'layout:adjacent', 'layout:nested',
-        'include-from-zone', 'zone-switch-in-unselected-branch', 'isa-zone:inverted', 'isa-zone:beyond-width', 'expect:ACCEPT', 'expect:REJECT']}
+        'include-from-zone', 'include-from-zone-then-continue', 'zone-switch-in-unselected-branch', 'isa-zone:inverted', 'isa-zone:beyond-width', 'expect:ACCEPT', 'expect:REJECT']}
 
     def build(self, rng, directed=None):
         addr_bits = rng.choice([8, 10, 12, 16])
@@ -153,7 +153,10 @@ class C05(core.Check):
                     main.append({'k': 'include_end'})
                     cursor['GLOBAL'] += n
                     tags.add('include-from-zone')
-                    continue
+                    if rng.random() < 0.3:
+                        continue
+                    # usually the includer goes on at once, without re-selecting its zone
+                    tags.add('include-from-zone-then-continue')
             if rng.random() < 0.2:
                 # a zone switch inside a branch that is not compiled must not switch anything
                 z = rng.choice(sorted(zt))
